@@ -52,6 +52,10 @@ def html_typer(cls_name, extra=None):
                     return ('str', [hole('TEXT', src)])
             if f == 'hasattr':
                 return ('const', None)
+            if f.startswith('self.render_') and isinstance(node.func, ast.Attribute):
+                # any other render method returns markup of its own (lemma D(ii)): safe between
+                # tags, never inside an attribute value
+                return ('str', [hole('WF', src)])
             return None
         if isinstance(node, ast.Attribute):
             if src == 'token.level':
